@@ -15,11 +15,11 @@ import warnings
 from ..runner import ROOT, Infra
 
 THEOREMS = [
-    "step", "fuel_enough", "total_partial", "error_iff_same_sign", "error_iff_unbounded", "error_iff_straddle",
-    "no_subnormal", "sorted_unique", "sorted_nonunique_partial", "within_partial", "within_unbounded",
-    "contains_bounds_partial", "contains_unbounded", "uniform_partial", "exact_size",
+    "cfg_wf", "key_eq_ord", "step", "fuel_enough", "no_subnormal", "sorted_unique", "total_partial",
+    "outcome_same_sign", "outcome_unbounded", "outcome_straddle",
+    "within_partial", "contains_bounds_partial", "sorted_nonunique_partial", "uniform_partial",
+    "within_unbounded", "contains_unbounded",
     "products_pair", "products_triple", "products_complex_partial", "products_complex_pair",
-    "key_eq_ord", "cfg_wf",
     "witness_size1", "witness_zero_sign", "witness_straddle_error", "witness_straddle_missing_bound",
     "witness_nonunique_unsorted", "witness_huge_skipped", "witness_complex_neg_zero",
 ]
